@@ -35,6 +35,8 @@ pub enum FaultKind {
     ErrorWarningThenOk,
     /// a Junos-native <xnm:error> (Junos XML namespace, not an <rpc-error>) and nothing else
     ForeignError,
+    /// the positive reply, but only `late_ms` after the reply to the NEXT request has been sent
+    HoldOk,
 }
 
 impl FaultKind {
@@ -53,17 +55,18 @@ impl FaultKind {
             FaultKind::ErrorThenOk => "error-then-ok",
             FaultKind::ErrorWarningThenOk => "error-warning-then-ok",
             FaultKind::ForeignError => "junos-xnm-error",
+            FaultKind::HoldOk => "ok-held-back-behind-the-next-reply",
         }
     }
     /// does this fault mean "the step failed" (as opposed to a benign variation)?
     pub fn is_failure(&self) -> bool {
-        !matches!(self, FaultKind::WarningThenOk | FaultKind::CloseAfter)
+        !matches!(self, FaultKind::WarningThenOk | FaultKind::CloseAfter | FaultKind::HoldOk)
     }
     pub fn parse(s: &str) -> Option<Self> {
         [
             FaultKind::RpcError, FaultKind::WarningThenOk, FaultKind::NoPositive, FaultKind::NotXml, FaultKind::Truncated,
             FaultKind::WrongMessageId, FaultKind::CloseBefore, FaultKind::CloseAfter, FaultKind::StallThenClose,
-            FaultKind::DelayedRpcError, FaultKind::ErrorThenOk, FaultKind::ErrorWarningThenOk, FaultKind::ForeignError,
+            FaultKind::DelayedRpcError, FaultKind::ErrorThenOk, FaultKind::ErrorWarningThenOk, FaultKind::ForeignError, FaultKind::HoldOk,
         ]
         .into_iter()
         .find(|f| f.name() == s)
@@ -83,6 +86,10 @@ pub struct Script {
     pub chunk: usize,
     /// (connection index, real milliseconds): delay the commit reply of that session (a slow run)
     pub slow_commit: Vec<(usize, u64)>,
+    /// `faults` apply to this connection only (None = to every connection)
+    pub faults_only_session: Option<usize>,
+    /// replies held back by `HoldOk` are sent this many real milliseconds after the next reply
+    pub late_ms: u64,
 }
 
 #[derive(Clone, Debug)]
@@ -177,7 +184,12 @@ async fn write_chunked(s: &mut tokio_rustls::server::TlsStream<tokio::net::TcpSt
 }
 
 async fn serve(mut s: tokio_rustls::server::TlsStream<tokio::net::TcpStream>, session: usize, script: &Script, sh: &Arc<Mutex<Shared>>, t0: Instant) {
-    let fault_for = |op: &str, occ: usize| script.faults.iter().find(|(o, k, _)| o == op && *k == occ).map(|(_, _, f)| f.clone());
+    let fault_for = |op: &str, occ: usize| {
+        if script.faults_only_session.map_or(false, |only| only != session) {
+            return None;
+        }
+        script.faults.iter().find(|(o, k, _)| o == op && *k == occ).map(|(_, _, f)| f.clone())
+    };
     if script.fail_connections.get(session).copied().unwrap_or(false) {
         // daemon test: drop the connection right away
         let _ = s.shutdown().await;
@@ -219,6 +231,7 @@ async fn serve(mut s: tokio_rustls::server::TlsStream<tokio::net::TcpStream>, se
     let mut occ: BTreeMap<String, usize> = BTreeMap::new();
     let mut held: Vec<Vec<u8>> = Vec::new(); // replies held back (delayed fault) in order
     let mut holding = false;
+    let mut late: Vec<Vec<u8>> = Vec::new(); // replies overtaken by the next one (HoldOk)
     loop {
         // next complete message
         let msg = loop {
@@ -355,6 +368,10 @@ async fn serve(mut s: tokio_rustls::server::TlsStream<tokio::net::TcpStream>, se
                         &idv,
                         "<xnm:error xmlns=\"http://xml.juniper.net/xnm/1.1/xnm\" xmlns:xnm=\"http://xml.juniper.net/xnm/1.1/xnm\"><source-daemon>mgd</source-daemon><message>injected: operation failed</message></xnm:error>",
                     )),
+                    FaultKind::HoldOk => {
+                        late.push(reply(&idv, &ok_body));
+                        None
+                    }
                     FaultKind::NotXml => Some(format!("%%% not xml at all <<<{MARKER}").into_bytes()),
                     FaultKind::Truncated => {
                         let r = reply(&idv, &ok_body);
@@ -400,6 +417,13 @@ async fn serve(mut s: tokio_rustls::server::TlsStream<tokio::net::TcpStream>, se
             } else {
                 write_chunked(&mut s, &b, script.chunk).await;
                 let _ = s.flush().await;
+                if !late.is_empty() {
+                    tokio::time::sleep(Duration::from_millis(script.late_ms)).await;
+                    for l in late.drain(..) {
+                        let _ = s.write_all(&l).await;
+                    }
+                    let _ = s.flush().await;
+                }
             }
         }
         if close_after {
